@@ -356,7 +356,11 @@ class Gen:
         n = max(0, int(n * self.size + 0.5)) if self.size != 1.0 else n
         out = []
         for _ in range(n):
-            out.append(self.stmt(kind, depth, in_loop, ret_ty))
+            st = self.stmt(kind, depth, in_loop, ret_ty)
+            if isinstance(st, tuple):
+                out.extend(st[1])      # ("multi", [statements])
+            else:
+                out.append(st)
         # terminator
         term = None
         if kind == "fn":
@@ -432,6 +436,20 @@ class Gen:
             else:
                 return self.call(r.choice(list(self.fns)), 1)
         if k == "let":
+            shadowable = [c for c, ct in self.consts.items() if ct[0] == "p" and c not in self.visible()]
+            if shadowable and self.site("R7s"):
+                # a local that shadows a global constant of ANOTHER type, read where the constant's type
+                # would fit: the read must see the local (WrongLetType), not the constant
+                c = r.choice(shadowable)
+                tc = self.consts[c]
+                tl = self.other_prim(tc)
+                s1 = ["let", self.ident(c), 0, ["noty"], self.expr(tl, 1)]
+                self.scopes[-1][c] = (tl, False)
+                probe = r.choice(VAL_NAMES[:4])
+                s2 = ["let", self.ident(probe), 0, ["ty", self.ty(tc)], ["expr", ["name", self.ident(c)]]]
+                self.scopes[-1][probe] = (tc, False)
+                self.injected = {"rule": "R7s", "kind": "WrongLetType", "name": probe}
+                return ("multi", [s1, s2])
             t = self.pick_type()
             name = r.choice(VAL_NAMES[: 4 + int(10 * r.random())])
             mut = r.randrange(2)
@@ -474,6 +492,12 @@ class Gen:
             self.injected = {"rule": "R18", "kind": "IfElseDuplicated"}
             els = ["else", self.ifbody(0, in_loop, ret_ty)]
             elif_ = ["elif", self.ifs(0, in_loop, ret_ty, 3)]
+            c18 = r.random()
+            if c18 < 0.35:
+                # a second violation inside the same if: the else / else-if rule is still met first
+                c = ["single", ["expr", ["name", self.ident("ghost")]]]
+            elif c18 < 0.6:
+                body = [body[0], ["let", self.ident("late"), 0, ["noty"], ["expr", ["name", self.ident("ghost")]]]] + body[1:]
         return ["ifs", c, body, els, elif_]
 
     # ------------------------------------------------------------------ declarations
@@ -599,7 +623,7 @@ class Gen:
         return out
 
 
-RULES = ["R1", "R2", "R3", "R4", "R5", "R6c", "R6f", "R6p", "R7", "R9", "R10", "R11", "R14", "R15",
+RULES = ["R1", "R2", "R3", "R4", "R5", "R6c", "R6f", "R6p", "R7", "R7s", "R9", "R10", "R11", "R14", "R15",
          "R16", "R18", "R20", "R21", "R22"]
 
 
@@ -1078,6 +1102,43 @@ def gen_name_triples():
                 body, params = [let(c)], [[g.ident(a), i32], [g.ident(b), i32]]
             f = ["fn", g.ident("f"), ["params"] + params, i32, ["body"] + body + [["ret", lit()]]]
             out.append((["program", f], {"stream": "names", "exhaustive": True}))
+    return out
+
+
+# ---------------------------------------------------------------------------------------- nested returns
+def gen_retmix(step=1):
+    """Every function with two (six construct kinds) or three (three kinds) nested returns, each
+    well- or ill-typed, followed by a final well-typed return: which of several nested returns is
+    checked must not depend on the others.  `step` thins the enumeration (every step-th program)."""
+    import itertools
+    i32 = ["prim", "i32"]
+    g = Gen(0)
+    tru = lambda: ["single", ["expr", ["prim", ["pv", "bool", 1]]]]
+    ret = lambda ok: ["ret", ["expr", ["prim", ["pv", "i32", 7] if ok else ["pv", "bool", 1]]]]
+    ifs = lambda body, els=None, elif_=None: ["if", ["ifs", tru(), body, els or ["noelse"], elif_ or ["noelif"]]]
+
+    def construct(kind, ok):
+        if kind == "A":
+            return ifs(["ifbody", ret(ok)])
+        if kind == "B":
+            return ifs(["ifbody"], ["else", ["ifbody", ret(ok)]])
+        if kind == "C":
+            return ifs(["ifbody"], None, ["elif", ["ifs", tru(), ["ifbody", ret(ok)], ["noelse"], ["noelif"]]])
+        if kind == "D":
+            return ["loop", ifs(["loopbody", ret(ok)]), ["break"]]
+        if kind == "E":
+            return ["loop", ret(ok)]
+        return ifs(["ifbody", ifs(["ifbody", ret(ok)])])      # F: two levels deep
+
+    out = []
+    combos = [(ks, oks) for n, kinds in ((2, "ABCDEF"), (3, "ABD"))
+              for ks in itertools.product(kinds, repeat=n) for oks in itertools.product([True, False], repeat=n)]
+    for k, (ks, oks) in enumerate(combos):
+        if k % step:
+            continue
+        body = [construct(kd, ok) for kd, ok in zip(ks, oks)] + [ret(True)]
+        f = ["fn", g.ident("f"), ["params"], i32, ["body"] + body]
+        out.append((["program", f], {"stream": "retmix", "kinds": "".join(ks), "ok": [int(x) for x in oks]}))
     return out
 
 
